@@ -20,9 +20,9 @@ import weakref  # noqa: F401  (kept: harness holds strong refs, loki holds weakr
 
 from hypothesis import strategies as st
 
-from ..core import Ctx, derive_seed
+from ..core import Ctx
 from ..tables import (build_attrs, describe_attrs, merge_attrs, spellings, strip_dims,
-                      minimise_ops)
+                      minimise_ops, run_machine_chunked)
 
 ID = 'C12'
 LEVEL = 'exploration'
@@ -1122,19 +1122,23 @@ def _minimise(ctx, before):
 
 
 def run_shard(ctx):
-    import hypothesis
-    from hypothesis.stateful import run_state_machine_as_test
     steps = 60 if ctx.thorough else 30
+    requested = 0
     for label, exec_cls, strat, (nq, nt) in (('A', ExecA, _strategies_a, (2400, 60000)),
                                              ('B', ExecB, _strategies_b, (1600, 40000))):
         before = set(ctx.failures)
         init, rules = strat(ctx.thorough)
         machine = _make_machine(exec_cls, init, rules, ctx)
-        n = ctx.scale(nq, nt)
-        run_state_machine_as_test(hypothesis.seed(derive_seed(ctx.seed, label))(machine),
-                                  settings=ctx.settings(n, stateful_step_count=steps))
+        # machine A may use 60% of the shard's budget, machine B the rest
+        full = ctx.budget
+        if full is not None and label == 'A':
+            ctx.budget = 0.6 * full
+        try:
+            requested += run_machine_chunked(ctx, machine, label, ctx.scale(nq, nt), steps)
+        finally:
+            ctx.budget = full
         _minimise(ctx, before)
-    ctx.extra['histories_requested'] = ctx.scale(2400, 60000) + ctx.scale(1600, 40000)
+    ctx.extra['histories_requested'] = requested
 
 
 def replay(case, ctx):
